@@ -614,8 +614,12 @@ func init() {
 		rng := r.Rng("c16")
 		for k := 0; k < r.Pick(3000, 300000); k++ {
 			n := rng.IntN(17)
+			crowd := k%8 == 7 // many clocks, most of them blocked beyond the deadline at the same time
+			if crowd {
+				n = 20 + rng.IntN(80)
+			}
 			s := c16Spec{DL: D, At: make([]int64, n), Extra: make([]int64, n), Fail: make([]bool, n), Ignore: make([]bool, n)}
-			if rng.IntN(6) == 0 {
+			if rng.IntN(6) == 0 && !crowd {
 				s.DL = 0
 			}
 			for i := 0; i < n; i++ {
@@ -626,10 +630,16 @@ func init() {
 					s.At[i] = rng.Int64N(D)
 				case 2:
 					s.At[i] = D + rng.Int64N(3*D)
+					if rng.IntN(3) == 0 { // a clock that comes back long after its round is over
+						s.At[i] = D + c17LogU(rng, int64(time.Second), int64(48*time.Hour))
+					}
 				case 3:
 					s.At[i] = D - 2 + rng.Int64N(5)
 				default:
 					s.At[i] = rng.Int64N(2 * D)
+				}
+				if crowd && rng.IntN(4) != 0 {
+					s.At[i] = D + 1 + rng.Int64N(3*D)
 				}
 				if s.DL == 0 && s.At[i] < 0 {
 					s.At[i] = rng.Int64N(D) // without a deadline nothing cancels: every clock must answer
